@@ -325,6 +325,11 @@ def deep_case(shape, op, n):
 
 def cycle_case(name, op):
     setup = [c[1] for c in CYCLES if c[0] == name][0]
+    if op == "recycle":
+        # the global-slot recycler (closed.rs GlobalSlotRecycler) walks everything reachable from the live globals
+        # once enough shadowed slots have accumulated: 130 redefinitions in separate units while c1 / c2 are live
+        redefs = ["(define c18-victim-%d %d)" % (k % 4, k) for k in range(130)]
+        return PRE + [setup] + redefs + ["(begin (define c18-fresh 1) (list 'recycled c18-victim-1 (equal? c1 c1)))", PROBE]
     return PRE + [setup, CYCLE_OPS[op], PROBE]
 
 
@@ -434,7 +439,7 @@ def run(ck):
             cases.append(item["units"])
             meta.append({"search": "corpus", "shape": item["name"], "op": "corpus"})
     for (name, _) in CYCLES:
-        for op in CYCLE_OPS:
+        for op in list(CYCLE_OPS) + ["recycle"]:
             cases.append(cycle_case(name, op))
             meta.append({"search": "cycle", "cycle": name, "op": op})
     t0 = time.time()
